@@ -118,12 +118,16 @@ def draw_window(draw, spec, integer=False):
         return None, None
     a = draw(st.sampled_from(cand))
     b = draw(st.sampled_from(cand))
-    if kind <= 7 and a > b:
+    if kind == 9:
+        return a, b  # raw: may be empty, reversed or touch the ends the wrong way
+    if a > b:
         a, b = b, a
+    if a >= L or a == b:
+        a = None
+    if b is not None and b <= 0:
+        b = None
     if kind == 8:
         b = None
-    if kind == 9:
-        a = None
     return a, b
 
 
@@ -499,7 +503,7 @@ def check_matrix_conf(ctx, tskit, np, ts, spec, conf):
 # ------------------------------------------------------------------ sub-check: decode histories
 @st.composite
 def history_case(draw):
-    aname, spec = draw(geno_spec(max_sites=6))
+    aname, spec = draw(geno_spec(max_sites=6).filter(lambda t: len(t[1]["sites"]) >= 2))
     confs = [draw_vconf(draw, spec, aname) for _ in range(2)]
     if draw(st.integers(0, 2)) > 0:
         # keep histories productive: a mapping that lacks a state only sometimes
@@ -513,9 +517,9 @@ def history_case(draw):
         st.tuples(st.just("c"), st.integers(0, 1), st.just(0)),
         st.tuples(st.just("r"), st.just(0), st.integers(0, 50)),
         st.tuples(st.just("x"), st.just(0), st.integers(0, 50)),   # decode() on a snapshot
-        st.tuples(st.just("b"), st.integers(0, 1), st.sampled_from([-1, 0, 1, -2])),  # bad site id
+        st.tuples(st.just("b"), st.integers(0, 1), st.sampled_from([-1, 0, 1, 5])),  # bad site id
     )
-    ops = [list(o) for o in draw(st.lists(op, min_size=1, max_size=25))]
+    ops = [list(o) for o in draw(st.lists(op, min_size=6, max_size=30))]
     return dict(spec=spec, alpha=aname, confs=confs, ops=ops)
 
 
@@ -619,7 +623,7 @@ def run_history(case, ctx):
                     pass
                 check_snap(i, f"op {t}: snapshot {i} after refused decode")
         elif kind == "b":
-            bad = a if a < 0 or a >= ns else ns
+            bad = -1 if a < 0 else ns + a
             try:
                 live[k].decode(bad)
                 ctx.fail("decode.bounds", f"decode({bad}) with {ns} sites did not raise")
@@ -765,7 +769,10 @@ def check_alignments_conf(ctx, tskit, np, spec, conf):
     l, r, okwin = window_of(spec, left, right)
     okwin = okwin and l == math.floor(l) and r == math.floor(r)
     disc = is_discrete(spec)
-    span = int(r - l) if okwin else 0
+    if disc and okwin and r - l > 2**21:
+        ctx.label("align_skipped_huge_span")  # terabyte strings: MemoryError is legitimate
+        return False
+    span = int(r - l) if okwin and disc else 0
     kw = {}
     if conf["samples"] is not None:
         kw["samples"] = list(conf["samples"])
@@ -792,7 +799,7 @@ def check_alignments_conf(ctx, tskit, np, spec, conf):
     if conf["ref"] == "arg" and okwin:
         ref = pattern(max(0, span + conf["delta"]))
         kw["reference_sequence"] = ref
-        if len(ref) != span:
+        if len(ref) != span or not disc:
             errs.add(ValueError)
         base = ref
     elif conf["ref"] == "embedded" and disc:
@@ -924,7 +931,7 @@ def run_small(case, ctx):
 
 # ------------------------------------------------------------------ registry
 SUBCHECKS = [
-    SubCheck("C03.variants", run_variants, strategy=variants_case, quick=2500, thorough=75000, rule=NT_RULE,
+    SubCheck("C03.variants", run_variants, strategy=variants_case, quick=5000, thorough=150000, rule=NT_RULE,
              classify=classify,
              floors={"stacked_mut_path": 0.15, "mut_above_isolated_sample": 0.03, "site_in_gap": 0.02,
                      "missing_data": 0.1, "gt4_alleles": 0.02, "empty_allele": 0.03, "multichar_allele": 0.05,
@@ -932,12 +939,12 @@ SUBCHECKS = [
                      "silent_mut": 0.1, "back_mut": 0.03, "recurrent_state": 0.1, "multi_mut_one_node": 0.1,
                      "mut_above_root": 0.1, "mapping_lacks_state": 0.03, "copy_false": 0.15,
                      "internal_sample": 0.1}),
-    SubCheck("C03.decode_history", run_history, strategy=history_case, quick=2000, thorough=60000,
+    SubCheck("C03.decode_history", run_history, strategy=history_case, quick=4000, thorough=120000,
              rule=">=2 successful decode() calls and (" + NT_RULE + ", or a backward jump in the decode order)",
              classify=classify,
              floors={"backward_jump": 0.3, "repeat_decode": 0.15, "snapshots": 0.3, "snapshot_reread": 0.2,
                      "two_live": 0.2, "multi_tree": 0.3, "missing_data": 0.1, "non_sample_requested": 0.1}),
-    SubCheck("C03.haplotypes_alignments", run_hap, strategy=hap_case, quick=1500, thorough=45000,
+    SubCheck("C03.haplotypes_alignments", run_hap, strategy=hap_case, quick=3000, thorough=90000,
              rule="haplotypes() returned strings over >=1 site and >=1 node for a tree sequence in the classes "
              "above, or alignments() returned strings over >=1 site",
              floors={"hap_ok": 0.2, "align_ok": 0.15, "align_error_expected": 0.1, "hap_error_expected": 0.1,
